@@ -43,6 +43,18 @@ def compare(p, run, pred):
             bad("C09", "Parallel: the context was cancelled before the directive ran and functions were still called: %s" % run["calls"])
         if run.get("leaked", 0) > 0 or not run.get("quiesced", True):
             bad("C06", "Parallel: %d goroutines still alive after the directive returned with a context cancelled beforehand" % run.get("leaked", 0))
+        if p.instr:
+            # the directive's own events do not depend on whether anything ran: one outcome matching the return value, then one Done
+            evs = run.get("events") or []
+            for k in range(p.emitters):
+                ev = [e.split(":", 1)[1] for e in evs if e.startswith("e%d:" % k)]
+                outcome = [e for e in ev if e.startswith("ParallelSuccess ") or e.startswith("ParallelError ")]
+                done = [e for e in ev if e.startswith("ParallelDone ")]
+                want = "ParallelSuccess " + p.name() if run["err"] == "nil" else "ParallelError %s %s" % (p.name(), run["err"])
+                if outcome != [want]:
+                    bad("C18", "Parallel called with a context cancelled beforehand returned %s and emitted outcome events %s" % (run["err"], outcome))
+                elif len(done) != 1 or ev.index(done[0]) < ev.index(outcome[0]):
+                    bad("C18", "ParallelDone not emitted exactly once after the outcome: %s" % ev)
         return hits
     want_calls = set(uid_of[c.split("(")[0]] for c in pcalls.split(";") if c)
     blocked = set(uid_of[b] for b in pblocked.split(",") if b)
@@ -147,6 +159,7 @@ def compare(p, run, pred):
     return hits
 
 
+@common.serialised("par")
 def observe(seed, tier):
     key = "par-%s-%s-%d-%s" % (common.repo_tree_hash(), _hash_sources(), seed, tier)
     cpath = os.path.join(common.CACHE, key + ".json")
